@@ -223,11 +223,44 @@ func (s *seedInfo) mutate(rng *rand.Rand) ([]patch, int, string) {
 	npages := len(s.data) / s.ps
 	pick := func() *hx.WPage { return s.pages[rng.Intn(len(s.pages))] }
 	pageOff := func(p *hx.WPage) int { return (p.No - 1) * s.ps }
-	kinds := []string{"overflow-rho", "ptr", "ptr", "cellcount", "cellptr", "varint-payloadlen", "varint-rowid", "varint-hdrsize", "varint-serial", "pagetype",
+	kinds := []string{"dag-chain", "overflow-rho", "ptr", "ptr", "cellcount", "cellptr", "varint-payloadlen", "varint-rowid", "varint-hdrsize", "varint-serial", "pagetype",
 		"master-rootpage", "master-sql", "master-type", "header", "truncate", "flip", "overflow-ptr", "overflow-ptr", "free-bytes"}
 	for tries := 0; tries < 50; tries++ {
 		kind := kinds[rng.Intn(len(kinds))]
 		switch kind {
+		case "dag-chain":
+			// no cycle, yet exponential: every child pointer of interior page P0 names P1, every one of P1 names P2, ...
+			// (interior pages of one kind chained as levels; the last keeps its own children). A walk that does not
+			// remember which interior pages it has seen visits fanout^levels leaves.
+			groups := map[byte][]*hx.WPage{}
+			for _, q := range s.pages {
+				if q.Interior() && len(q.Cells) > 0 {
+					groups[q.Kind] = append(groups[q.Kind], q)
+				}
+			}
+			var chain []*hx.WPage
+			for _, g := range groups {
+				if len(g) >= 3 && len(g) > len(chain) {
+					chain = g
+				}
+			}
+			if len(chain) < 3 {
+				continue
+			}
+			// the root first (level 1), then the others
+			sort.SliceStable(chain, func(a, b int) bool { return chain[a].Level < chain[b].Level })
+			if len(chain) > 9 {
+				chain = chain[:9]
+			}
+			var ps []patch
+			for i := 0; i+1 < len(chain); i++ {
+				next := hex.EncodeToString(u32(uint32(chain[i+1].No)))
+				for _, c := range chain[i].Cells {
+					ps = append(ps, patch{pageOff(chain[i]) + c.Off, next})
+				}
+				ps = append(ps, patch{pageOff(chain[i]) + chain[i].HdrOff + 8, next})
+			}
+			return ps, -1, "dag-chain"
 		case "ptr":
 			// pick among the interior pages (a uniform pick over all pages almost never hits one)
 			var interior []*hx.WPage
@@ -720,6 +753,7 @@ func C05(run *hx.Run) {
 		{"page_size": 512, "rows": 60, "big_density": 0.1, "big_extra": []int{2000, 5000}},
 		{"page_size": 1024, "rows": 100, "frag": true, "big_density": 0.1, "big_extra": []int{9000}},
 		{"page_size": 512, "rows": 500, "features": []string{"plain", "alias", "wr"}},
+		{"page_size": 512, "rows": 4000, "features": []string{"alias", "wr"}}, // three-level trees: several interior pages per tree
 		{"page_size": 4096, "rows": 120, "big_density": 0.05, "big_extra": []int{20000}},
 		{"page_size": 1024, "rows": 200, "features": []string{"customcoll", "wr", "misc"}}, // valid file with an application-defined collation
 	}
